@@ -431,21 +431,41 @@ class Twin:
 
 
 class FakeLink:
-    """The boundary object the bootloader code calls: send_packet / receive_packet(timeout)."""
+    """The boundary object the bootloader code calls: send_packet / receive_packet(timeout).
+    mode 'eager': the packet is serialised inside send_packet (usb / tcp drivers).
+    mode 'deferred': the link keeps the packet OBJECT in a one-slot out-queue (radio driver: Queue(1), the radio thread
+    reads header/data afterwards) and serialises it as late as the protocol allows: when the next packet needs the slot,
+    when the client starts to receive, or when the call is over (finish()).  The client must therefore not touch a packet
+    it has handed over; for code that does not, both modes put the same bytes on the air."""
 
-    def __init__(self, twin, inbox=()):
+    def __init__(self, twin, inbox=(), mode='eager'):
         self.twin = twin
         self.inbox = list(inbox)
         self.sent = []
         self.timeouts = []
+        self.mode = mode
+        self.slot = None
 
-    def send_packet(self, pk):
+    def _air(self, pk):
         d = bytes(pk.data)
         self.sent.append((pk.header, d))
         self.inbox.extend(self.twin.on_send(pk.header, d))
 
+    def finish(self):
+        if self.slot is not None:
+            pk, self.slot = self.slot, None
+            self._air(pk)
+
+    def send_packet(self, pk):
+        if self.mode == 'eager':
+            self._air(pk)
+        else:
+            self.finish()
+            self.slot = pk
+
     def receive_packet(self, wait=0):
         from cflib.crtp.crtpstack import CRTPPacket
+        self.finish()
         self.timeouts.append(wait)
         r = self.inbox.pop(0) if self.inbox else None
         if wait != 0:
@@ -481,7 +501,7 @@ def run_real_flash(c):
     from cflib.bootloader.boottypes import Target as BTarget
     tid = c['key']
     twin = Twin(c['addr'] if 0 <= c['addr'] < 256 else -1, c['seed'], c['script'])
-    link = FakeLink(twin, c['inbox'])
+    link = FakeLink(twin, c['inbox'], c.get('link_mode', 'eager'))
     bl = Bootloader(None)
     bl._cload.link = link
     if c.get('via_info'):
@@ -511,8 +531,11 @@ def run_real_flash(c):
     image = bytes(c['image']) if c['image_type'] == 'bytes' else (list(c['image']) if c['image_type'] == 'list' else bytearray(c['image']))
     art = FlashArtifact(image, ATarget('cf2', TARGET_NAMES[tid], 'fw', [], []), None)
     try:
-        with contextlib.redirect_stdout(io.StringIO()):
-            bl._internal_flash(art, 1, 1, c['override'])
+        try:
+            with contextlib.redirect_stdout(io.StringIO()):
+                bl._internal_flash(art, 1, 1, c['override'])
+        finally:
+            link.finish()
         res = 'done'
     except Exception as e:
         if type(e) is Exception and e.args == ('Not enough space to flash the image file',):
@@ -549,30 +572,36 @@ def real_flash_reply(c):
         len(twin.script), len(link.inbox), len(twin.late)), link, twin
 
 
-def real_upload(tid, page, address, buff):
+def real_upload(tid, page, address, buff, mode='eager'):
     _quiet()
     from cflib.bootloader.cloader import Cloader
     twin = Twin(-1, 0, [])
-    link = FakeLink(twin)
+    link = FakeLink(twin, (), mode)
     cl = Cloader(None)
     cl.link = link
     try:
-        cl.upload_buffer(tid, page, address, buff)
+        try:
+            cl.upload_buffer(tid, page, address, buff)
+        finally:
+            link.finish()
         res = 'ok'
     except Exception as e:
         res = 'err:' + exc_enum(e)
     return '%s sent=%s' % (res, show_pkts(link.sent))
 
 
-def real_wflash(addr, pb, tp, pc, script, inbox):
+def real_wflash(addr, pb, tp, pc, script, inbox, mode='eager'):
     _quiet()
     from cflib.bootloader.cloader import Cloader
     twin = Twin(addr if 0 <= addr < 256 else -1, 0, script)
-    link = FakeLink(twin, inbox)
+    link = FakeLink(twin, inbox, mode)
     cl = Cloader(None)
     cl.link = link
     try:
-        r = cl.write_flash(addr, pb, tp, pc)
+        try:
+            r = cl.write_flash(addr, pb, tp, pc)
+        finally:
+            link.finish()
         res = '%s:%d' % ('true' if r else 'false', cl.error_code)
     except Exception as e:
         res = 'err:' + exc_enum(e)
@@ -672,6 +701,7 @@ def mk_case(rng, key, ps, bp, fp, sp, ln, script=None, **kw):
          'image': bytes(rng.randrange(256) for _ in range(ln)), 'image_type': rng.choice(['bytes', 'bytes', 'list', 'bytearray']),
          'script': rand_script(rng, key) if script is None else script, 'seed': rng.randrange(1000), 'inbox': [], 'via_info': False}
     c.update(kw)
+    c.setdefault('link_mode', 'deferred' if c['seed'] % 2 else 'eager')     # see FakeLink
     return c
 
 
@@ -816,22 +846,27 @@ def correspond(ctx):
         ctx.count('flash:terminate_cb:' + ('unset' if c['term'] is None else 'set'))
         ctx.count('flash:progress_cb:' + ('set' if c['progress'] else 'unset'))
         ctx.count('flash:geometry:' + ('real' if c['via_info'] else 'small'))
+        ctx.count('flash:link:' + c.get('link_mode', 'eager'))
         ctx.count('flash:stale-inbox:' + ('yes' if c['inbox'] else 'no'))
         ctx.count('flash:timeouts:' + ','.join(sorted({str(t) for t in link.timeouts})) if link.timeouts else 'flash:timeouts:none')
         meta.append(('flash', {'op': 'flash', 'geom': [c['key'], ps, bp, c['fp'], c['sp']], 'override': c['override'], 'len': ln, 'script': [fmt_outcome(o) for o in c['script']][:12],
                                'inbox': len(c['inbox']), 'term': c['term'], 'result': res},
                      ('flash', c['key'], c['addr'], ps, bp, c['fp'], c['sp'], c['override'], ln, tuple(fmt_outcome(o) for o in c['script']), len(c['inbox']), tuple(c['term'] or ()))))
     for (tid, page, address, buff) in gen_upload_cases(ctx):
-        lines.append('upload %d %d %d %s' % (tid, page, address, hexs(buff)))
-        r = real_upload(tid, page, address, buff)
-        reals.append(r)
-        ctx.count('upload:result:' + r.split(' ')[0])
-        ctx.count('upload:len%25:' + ('0' if len(buff) % 25 == 0 else 'other'))
-        meta.append(('upload', {'op': 'upload', 'tid': tid, 'page': page, 'address': address, 'len': len(buff)}, ('upload', tid, page, address, len(buff))))
+        for mode in ('eager', 'deferred'):       # the same bytes must go on the air whether or not the link serialises at once
+            lines.append('upload %d %d %d %s' % (tid, page, address, hexs(buff)))
+            r = real_upload(tid, page, address, buff, mode)
+            reals.append(r)
+            ctx.count('upload:result:' + r.split(' ')[0])
+            ctx.count('upload:link:' + mode)
+            ctx.count('upload:len%25:' + ('0' if len(buff) % 25 == 0 else 'other'))
+            meta.append(('upload', {'op': 'upload', 'tid': tid, 'page': page, 'address': address, 'len': len(buff), 'link': mode}, ('upload', tid, page, address, len(buff), mode)))
     for (addr, pb, tp, pc, script, inbox) in gen_wflash_cases(ctx):
         lines.append('wflash %d %d %d %d %s %s' % (addr, pb, tp, pc, ','.join(fmt_outcome(o) for o in script) or '-',
                                                    ','.join('%d:%s' % (h, hexs(d)) for h, d in inbox) or '-'))
-        r, link = real_wflash(addr, pb, tp, pc, script, inbox)
+        wmode = 'deferred' if len(lines) % 2 else 'eager'
+        r, link = real_wflash(addr, pb, tp, pc, script, inbox, wmode)
+        ctx.count('wflash:link:' + wmode)
         reals.append(r)
         ctx.count('wflash:result:' + r.split(' ')[0].split(':')[0] + (':' + r.split(' ')[0].split(':')[1] if r.startswith('err') else ''))
         ctx.count('wflash:attempts:%d' % len(link.sent))
@@ -970,6 +1005,7 @@ def load_corpus():
                     c['image'] = bytes.fromhex(c['image'])
                     c['script'] = [(o[0], None if o[1] is None else (o[1][0], bytes.fromhex(o[1][1])), o[2]) for o in c['script']]
                     c['inbox'] = [(h, bytes.fromhex(x)) for h, x in c['inbox']]
+                    c.setdefault('link_mode', 'deferred')
                     res.append(c)
     return res
 
@@ -989,7 +1025,8 @@ def search(ctx):
             seen.add(key)
             ctx.witness(key, what, {'geom': {'target': c['key'], 'page_size': c['ps'], 'buffer_pages': c['bp'], 'flash_pages': c['fp'], 'start_page': c['sp']},
                                     'page_override': c['override'], 'image': bytes(c['image']).hex(), 'script': [fmt_outcome(o) for o in c['script']],
-                                    'inbox': ['%d:%s' % (h, d.hex()) for h, d in c['inbox']], 'terminate_cb': c['term'], 'progress_cb': c['progress']},
+                                    'inbox': ['%d:%s' % (h, d.hex()) for h, d in c['inbox']], 'terminate_cb': c['term'], 'progress_cb': c['progress'],
+                                    'link': c.get('link_mode', 'eager') + ' serialisation'},
                         detail=detail, result=res)
     search_histories(ctx, seen)
 
@@ -1061,6 +1098,11 @@ class Air:
         self.current = None        # the copter a new link connects to
         self.clock = clock
         self.links = []
+        self.mode = 'eager'
+
+    def finish(self):
+        for ln in self.links:
+            ln.finish()
 
 
 def make_driver_class(air):
@@ -1081,14 +1123,27 @@ def make_driver_class(air):
                 self.copter.late = []
             air.links.append(self)
 
-        def send_packet(self, pk):
+        def _air(self, pk):
             d = bytes(pk.data)
             self.sent.append((pk.header, d))
             if self.copter is not None:
                 self.inbox.extend(self.copter.on_send(pk.header, d))
 
+        def finish(self):
+            if getattr(self, 'slot', None) is not None:
+                pk, self.slot = self.slot, None
+                self._air(pk)
+
+        def send_packet(self, pk):
+            if air.mode == 'eager':
+                self._air(pk)
+            else:                      # one-slot out-queue holding the packet object (see FakeLink)
+                self.finish()
+                self.slot = pk
+
         def receive_packet(self, wait=0):
             from cflib.crtp.crtpstack import CRTPPacket
+            self.finish()
             r = self.inbox.pop(0) if self.inbox else None
             if wait != 0 and self.copter is not None:
                 self.inbox.extend(self.copter.on_wait_done())
@@ -1102,6 +1157,7 @@ def make_driver_class(air):
             return [uris[-1]] if self.copter is not None else []
 
         def close(self):
+            self.finish()
             self.closed = True
     return FakeDriver
 
@@ -1141,6 +1197,7 @@ def run_real_history(h):
     clock = VClock()
     copters = [CopterTwin(i, h['seed'], c['proto'], c['info'], c['targets']) for i, c in enumerate(h['copters'])]
     air = Air(copters, clock)
+    air.mode = 'deferred' if h['seed'] % 2 else 'eager'
     loaders = []       # ('cl', Cloader) | ('bl', Bootloader)
     conn = []
     out = []
@@ -1219,6 +1276,7 @@ def run_real_history(h):
                     raise AssertionError(op)
             except Exception as e:
                 res = 'err:' + exc_enum(e)
+            air.finish()          # the call is over: whatever still sits in a link's out-queue goes on the air now
             if k is None or op[0] in ('open', 'close', 'bl_close'):
                 pk = []
             else:
